@@ -177,7 +177,9 @@ def _props_file(v, pid):
 def run_case_file(path):
     """Evaluate one generated cases_*.v; returns (ok, list_of_mismatching_ids, log)."""
     d = os.path.dirname(path)
-    rc, out = sh("coqc -R %s Verif -Q . Cases %s" % (COQ, os.path.basename(path)), cwd=d, timeout=1800)
+    # large list literals (byte strings of tens of KB) need more than the default 8 MB stack in coqc's parser
+    rc, out = sh("ulimit -s unlimited 2>/dev/null || ulimit -s $(ulimit -Hs) 2>/dev/null; coqc -R %s Verif -Q . Cases %s" % (COQ, os.path.basename(path)),
+                 cwd=d, timeout=1800)
     if rc != 0:
         return False, [], out[-3000:]
     m = re.search(r"M\s*=\s*(\[.*?\])\s*:\s*list", out, re.S)
